@@ -90,7 +90,8 @@ def classify_consumer(ctx: Ctx, fn: FunctionInfo, it: ast.AST) -> tuple[str, str
             return "insensitive", f"{nm}()", p
         if nm in ("list", "tuple", "enumerate", "iter", "next", "zip", "map", "filter", "choice", "shuffle", "deque", "join"):
             up, cur = parent(p), p
-            while isinstance(up, ast.Call) and call_name(up) in ("list", "tuple", "map", "filter") and cur in up.args \
+            # position-preserving wrappers between the iteration and its consumer (chain.from_iterable(map(f, S)) flattens in the same order)
+            while isinstance(up, ast.Call) and call_name(up) in ("list", "tuple", "map", "filter", "from_iterable", "chain", "iter") and cur in up.args \
                     and nm in ("list", "tuple", "map", "filter"):
                 cur, up = up, parent(up)
             if isinstance(up, ast.Call) and call_name(up) in REDUCTIONS and nm in ("list", "tuple", "map", "filter"):
@@ -326,15 +327,55 @@ def _pure_numeric(f: FunctionInfo) -> bool:
     names = {p.arg for p in params}
     for nd in walk_local(f.node, include_nested=True):
         if isinstance(nd, ast.Name) and isinstance(nd.ctx, ast.Load) and nd.id not in names \
-                and nd.id not in ("round", "abs", "int", "float", "min", "max", "pow", "divmod", "len", "math", "log10", "log2", "log", "sqrt", "floor", "ceil", "isqrt"):
+                and nd.id not in ("round", "abs", "int", "float", "min", "max", "pow", "divmod", "len", "math", "log10", "log2", "log", "sqrt", "floor", "ceil", "isqrt",
+                                  "tuple", "frozenset", "str", "bool", "sorted"):
             local = any(isinstance(x, ast.Name) and isinstance(x.ctx, ast.Store) and x.id == nd.id for x in walk_local(f.node))
             if not local:
                 return False
         if isinstance(nd, (ast.Attribute,)) and not (isinstance(nd.value, ast.Name) and nd.value.id == "math"):
-            return False
+            # a method of an immutable text parameter (names.split(sep), text.strip().lower()): still a function of the arguments alone
+            str_params = {p.arg for p in params if norm(p.annotation) == "str"}
+            root = nd
+            while isinstance(root, (ast.Attribute, ast.Call)):
+                root = root.value if isinstance(root, ast.Attribute) else root.func
+            if not (isinstance(root, ast.Name) and root.id in str_params
+                    and nd.attr in ("split", "rsplit", "strip", "lstrip", "rstrip", "lower", "upper", "partition", "rpartition", "splitlines", "replace",
+                                    "startswith", "endswith", "removeprefix", "removesuffix", "casefold", "title", "join", "find", "count", "isdigit", "isidentifier")):
+                return False
         if isinstance(nd, (ast.Global, ast.Nonlocal, ast.Yield, ast.YieldFrom, ast.Subscript)):
             return False
     return True
+
+
+def _grammar_constant(prog, f: FunctionInfo) -> bool:
+    """a zero-argument method whose result depends on nothing but self.grammar (read through its accessors) and other methods / cached properties
+    of the same kind: no stores, no draws, no other instance state"""
+    if f.cls is None or [p for p in f.params if p != "self"]:
+        return False
+    from ..astutil import is_self_attr
+    seen: set = set()
+
+    def ok(g: FunctionInfo, depth: int) -> bool:
+        if g.fullname in seen:
+            return True
+        seen.add(g.fullname)
+        if depth > 3 or not isinstance(g.node, (ast.FunctionDef, ast.AsyncFunctionDef)):
+            return False
+        for x in walk_local(g.node):
+            if isinstance(x, (ast.Assign, ast.AugAssign, ast.AnnAssign)):
+                tg = x.targets if isinstance(x, ast.Assign) else [x.target]
+                if any(not isinstance(t_, ast.Name) for t_ in tg):
+                    return False
+            if isinstance(x, (ast.Global, ast.Nonlocal, ast.Yield, ast.YieldFrom, ast.Delete)):
+                return False
+            if isinstance(x, ast.Call) and call_name(x) in ("randint", "random", "random_float", "random_bool", "choice", "shuffle", "choice_weighted", "normalvariate", "time", "perf_counter"):
+                return False
+            if is_self_attr(x) and x.attr != "grammar":
+                h = prog.lookup_method(f.cls, x.attr)
+                if h is None or not ok(h, depth + 1):
+                    return False
+        return True
+    return ok(f, 0)
 
 
 def process_state_rule(ctx: Ctx, rid: str, module_prefixes: tuple = ()) -> int:
@@ -395,6 +436,11 @@ def process_state_rule(ctx: Ctx, rid: str, module_prefixes: tuple = ()) -> int:
                     # a function of numbers only (all parameters annotated int / float / bool / str, body built from arithmetic and math / builtins):
                     # its cache can never go stale - the key is the complete input and nothing else is read
                     ctx.ob(rid, f, d, f"memoised with {dn}: a pure function of numbers", True, "")
+                    continue
+                if dn.split(".")[-1] == "cached_property" and _grammar_constant(prog, f):
+                    # per-instance, computed once from the object's (read-only, C10) grammar and other such properties: a constant of the object,
+                    # not state that a search leaves behind for the next one
+                    ctx.ob(rid, f, d, f"memoised with {dn}: a constant of the object derived from its grammar", True, "")
                     continue
                 ctx.ob(rid, f, d, f"memoised with {dn}", False,
                        f"@{dn} keeps results for the lifetime of the process: values derived from class declarations go stale when "
